@@ -39,7 +39,8 @@ ASSUMPTIONS = ['IPv6 literal hosts, duplicated Upgrade/Accept headers and '
 
 ACCEPT_BAD = ['other_key', 'prev_key', 'truncated', 'extended', 'prefix20',
               'swapcase', 'lower', 'upper', 'urlsafe', 'empty', 'reversed',
-              'missing']
+              'missing', 'nbsp_suffix', 'nbsp_prefix', 'nel_suffix',
+              'vt_suffix', 'ff_prefix', 'us_suffix']
 MARK = b'MARKER-AFTER-REPLY'
 
 
@@ -90,7 +91,8 @@ def _attempt(rng, first, size_edge=False):
     elif r < 0.85:
         a['upgrade'] = rng.choice([None, 'h2c', 'websocket2', 'web socket',
                                    'websocke', '', '{websocket}', '{}', '{0}',
-                                   'websocket}', '{'])
+                                   'websocket}', '{', u'websocket\x85',
+                                   u'\xa0websocket', u'websocket\xa0'])
     elif r < 0.92:
         a['block'] = rng.choice([16383, 16384, 16385, 20000])
         a['terminated'] = rng.random() < 0.6
